@@ -1,7 +1,8 @@
 """Interval tests read as polynomial bounds (shared by C10.R3 / C13.R7 and the Anchor~Pinocchio pair of C12.R5)."""
 from analysis import cfg, atoms as A
-from analysis.prov import prov_of, strip, subterms, show
-from analysis.match import is_param, is_call
+from analysis.prov import prov_of, strip, subterms, show, leaves
+from analysis.match import is_param, is_call, const_val
+from analysis.ir import callee_path
 from analysis.poly import poly
 
 def search_range_bounds(fn, shifted):
@@ -151,3 +152,175 @@ def floor_div_form(fn):
     if not ok:
         return None, "remainder < 0 gives %s, otherwise %s" % (show(neg_side), show(pos_side))
     return (x, y), ""
+
+
+def search_model(facts, fn, ab, offset_call="tick_offset"):
+    """The slot search of a get_next_init_tick_index in direction `ab`, however it is written (a cursor stepped in a `while`, or
+    `Iterator::find` over a range / reversed inclusive range):
+      dict(first=poly, dir=-1|+1, lo=poly, hi=poly, result=poly, form="loop"|"find")
+    over o = the slot offset of tick_index (tick_offset(..)?), x = the slot found, S = start tick index, T = tick spacing. `first` is the
+    first slot tested; slots are tested while lo <= slot < hi. Otherwise (None, why)."""
+    pv = prov_of(fn, {"a_to_b": ab}, cut="loop")
+
+    def atom(t):
+        t = strip(t)
+        if t[0] == "call" and t[1].rsplit("::", 1)[-1] == offset_call:
+            return "o"
+        if is_call(t, "start_tick_index") or (t[0] == "field" and t[2] == "start_tick_index"):
+            return "S"
+        if t[0] == "param" and t[1] == "tick_spacing":
+            return "T"
+        return show(t, True)
+
+    def P(t):
+        return {m: c for m, c in poly(t, atom).items() if c}
+    live = lambda b: pv.flow is None or pv.flow.state_in[b] is not None
+    # --- Iterator::find form
+    finds = [(bi, t) for bi, t in fn.calls() if live(bi) and not fn.blocks[bi]["c"] and (callee_path(t) or "").rsplit("::", 1)[-1] == "find"
+             and "iter" in (t["f"].get("raw") or callee_path(t) or "")]
+    if finds:
+        if len(finds) != 1:
+            return None, "%d find calls in direction a_to_b=%s" % (len(finds), ab)
+        bi, t = finds[0]
+        it = strip(pv.operand(t["a"][0], bi, len(fn.blocks[bi]["s"])))
+        clo = strip(pv.operand(t["a"][1], bi, len(fn.blocks[bi]["s"])))
+        rev = False
+        if is_call(it, "rev") and len(it[2]) == 1:
+            rev = True
+            it = strip(it[2][0])
+        if it[0] == "agg" and it[1].endswith("ops::Range"):
+            f = dict(it[3])
+            lo, hi = P(f["start"]), P(f["end"])
+        elif it[0] == "call" and it[1].split("::<")[0].endswith("RangeInclusive") and it[1].endswith("::new") and len(it[2]) == 2:
+            lo, hi = P(it[2][0]), P(("bin", "Add", it[2][1], ("const", 1, None, None)))
+        else:
+            return None, "find over %s" % show(it)[:80]
+        # the predicate: ticks[slot].initialized of this array
+        if clo[0] != "closure":
+            return None, "find with %s" % show(clo)[:60]
+        cf = facts.fn(clo[1])
+        okp = False
+        if cf is not None:
+            pc = prov_of(cf)
+            for b2, bb2 in enumerate(cf.blocks):
+                if bb2["t"]["k"] == "ret":
+                    r = strip(pc.local(0, b2, len(bb2["s"])))
+                    okp = r[0] == "field" and r[2] == "initialized" and strip(r[1])[0] == "index" and any(x[0] == "field" and x[2] == "ticks" for x in subterms(r[1])) \
+                        and any(x[0] == "param" for x in subterms(strip(r[1])[2]))
+        if not okp:
+            return None, "the find predicate is not ticks[slot].initialized"
+        # found slot -> tick: Option::map(closure) over (x)
+        res = None
+        for b2, t2 in fn.calls():
+            if live(b2) and (callee_path(t2) or "").rsplit("::", 1)[-1] == "map" and len(t2["a"]) == 2:
+                c2 = strip(pv.operand(t2["a"][1], b2, len(fn.blocks[b2]["s"])))
+                g = facts.fn(c2[1]) if c2[0] == "closure" else None
+                if g is None:
+                    continue
+                pg = prov_of(g)
+                caps = dict(zip(range(len(c2[2])), c2[2]))
+
+                def gatom(x):
+                    x = strip(x)
+                    if x[0] == "param" and x[1] != "self" and not x[1].startswith("_"):
+                        return "x"
+                    if x[0] == "param":
+                        return "x" if g.param_names().index(x[1]) == 1 else show(x, True)
+                    if x[0] == "field" and x[2] == "start_tick_index":
+                        return "S"
+                    if x[0] == "field" and x[2] in ("tick_spacing",):
+                        return "T"
+                    if x[0] == "field" and x[2].isdigit():
+                        # a captured variable: upvar i of the closure environment
+                        cap = caps.get(int(x[2]))
+                        if cap is not None:
+                            return atom(cap) if atom(cap) in ("S", "T", "o") else ("T" if any(s_[0] == "param" and s_[1] == "tick_spacing" for s_ in subterms(cap)) else show(cap, True))
+                    return show(x, True)
+                for b3, bb3 in enumerate(g.blocks):
+                    if bb3["t"]["k"] == "ret":
+                        res = {m: c for m, c in poly(pg.local(0, b3, len(bb3["s"])), gatom).items() if c}
+        if res is None:
+            return None, "the found slot is not mapped to a tick index"
+        if rev:
+            first = {m: c for m, c in hi.items()}
+            first[()] = first.get((), 0) - 1
+            first = {m: c for m, c in first.items() if c}
+        else:
+            first = lo
+        # a first slot outside the array finds nothing: `(glo..ghi).contains(first)` must hold on the way to the find
+        guard = None
+        for at in A.atoms(fn, {"a_to_b": ab}, cut="loop"):
+            tt = strip(at.term)
+            if tt[0] == "call" and tt[1].endswith("::contains") and len(tt[2]) == 2 and P(tt[2][1]) == first:
+                rg = strip(tt[2][0])
+                if rg[0] == "agg" and rg[1].endswith("ops::Range") and bi in cfg.reach(fn, at.true_targets[0]) and bi not in cfg.reach(fn, at.false_targets[0]):
+                    f = dict(rg[3])
+                    guard = (P(f["start"]), P(f["end"]))
+        if guard is None:
+            return None, "the find is not guarded by `(lo..hi).contains(first slot)`"
+        return dict(first=first, dir=-1 if rev else 1, stop=lo if rev else hi, guard=guard, result=res, form="find"), ""
+    # --- cursor loop form
+    cyc = pv.cycle_blocks()
+    cursor = None
+    for loc_ in range(fn.argc + 1, len(fn.locals)):
+        if not fn.locals[loc_].get("n"):
+            continue
+        ds = pv.var_defs(loc_)
+        inloop = [(b, t) for (b, _, t) in ds if b in cyc]
+        if inloop and all(strip(t)[0] == "bin" and strip(strip(t)[2]) == ("var", fn.locals[loc_]["n"], loc_) for _, t in inloop):
+            cursor = loc_
+    if cursor is None:
+        return None, "no search cursor (a local stepped inside a loop) and no Iterator::find"
+    cv = ("var", fn.locals[cursor]["n"], cursor)
+    ds = pv.var_defs(cursor)
+    steps = set()
+    for (b, _, t) in ds:
+        if b in cyc:
+            s = strip(t)
+            for amt in leaves(strip(s[3])):
+                v_ = const_val(amt)
+                if v_ in (1, -1) and s[1][:3] in ("Add", "Sub"):
+                    steps.add(v_ if s[1][:3] == "Add" else -v_)
+                else:
+                    steps.add(None)
+    if len(steps) != 1 or None in steps:
+        return None, "the cursor is stepped by %s" % sorted(map(str, steps))
+    d = steps.pop()
+    outside = [strip(t) for (b, _, t) in ds if b not in cyc]
+    init = [t for t in outside if not any(x == cv for x in subterms(t))]
+    pre = [t for t in outside if t not in init]
+    if len(init) != 1 or len(pre) > 1:
+        return None, "cursor initialised %d times, adjusted %d times before the loop" % (len(init), len(pre))
+    first = P(init[0])
+    if pre:
+        u = pre[0]
+        if not (u[0] == "bin" and u[1][:3] in ("Add", "Sub") and strip(u[2]) == cv and const_val(u[3]) is not None):
+            return None, "cursor adjusted by %s before the loop" % show(u)[:60]
+        first[()] = first.get((), 0) + (const_val(u[3]) if u[1][:3] == "Add" else -const_val(u[3]))
+        first = {m: c for m, c in first.items() if c}
+    # loop bound: contains(Range{lo, hi}, cursor) / lo <= cursor && cursor < hi
+    lo = hi = None
+    for at in A.atoms(fn, {"a_to_b": ab}, cut="loop"):
+        if at.block not in cyc:
+            continue
+        tt = strip(at.term)
+        if tt[0] == "call" and tt[1].endswith("::contains") and len(tt[2]) == 2 and strip(tt[2][1]) == cv:
+            rg = strip(tt[2][0])
+            if rg[0] == "agg" and rg[1].endswith("ops::Range"):
+                f = dict(rg[3])
+                lo, hi = P(f["start"]), P(f["end"])
+    if lo is None:
+        return None, "no `(lo..hi).contains(cursor)` loop condition"
+    res = None
+    for bi, bb in enumerate(fn.blocks):
+        if bb["t"]["k"] == "ret" and live(bi):
+            for l in leaves(pv.local(0, bi, len(bb["s"]))):
+                l = strip(l)
+                if l[0] == "agg" and l[2] == "Ok":
+                    inner = strip(dict(l[3])["0"])
+                    if inner[0] == "agg" and inner[2] == "Some":
+                        v = dict(inner[3])["0"]
+                        res = {m: c for m, c in poly(v, lambda x: "x" if strip(x) == cv else atom(x)).items() if c}
+    if res is None:
+        return None, "no Ok(Some(..)) result"
+    return dict(first=first, dir=d, stop=lo if d < 0 else hi, guard=(lo, hi), result=res, form="loop"), ""
